@@ -1117,6 +1117,8 @@ def call_lib(ex, st, name, args, kwargs, node):
 
 
 def call_method(ex, st, obj, name, args, kwargs, node):
+    if name == '__getitem__' and len(args) == 1 and not kwargs:
+        return ex.getitem(obj, args[0], st, node)          # xs.__getitem__(i) is xs[i]
     if isinstance(obj, (ArrayVal, NDRef)):
         if name == 'copy':
             return np_copy(ex, st, obj)
